@@ -134,6 +134,33 @@ def unetC (cin cout F : Nat) : Nat → List COp
 /-- `NormUnetModel2d` / `NormUnetModel3d`: the inner U-Net, hooked once more as a whole -/
 def normUnetC (cin cout F L : Nat) : List COp := unetC cin cout F L ++ [.emit]
 
+/-- `MultiDomainConv2d(cin, cout)` / `MultiDomainConvTranspose2d(cin, cout)` (`direct/nn/multidomainnet/multidomain.py`):
+the input (already remembered by the caller: register 0) goes through `kspace_conv` (`cout // 2` filters) in the Fourier
+domain — the result is remembered —, the input is taken up again for `image_conv` (`cout // 2` filters) and
+`torch.cat([image, backward], dim=1)` gives `2·(cout // 2)` channels.  `keep`: the input is needed again later (it is the
+skip connection of this level). -/
+def mdConvC (keep : Bool) (cin cout : Nat) : List COp :=
+  [.conv cin (cout / 2), .save, .load 1] ++ (if keep then [] else [.drop 1]) ++ [.conv cin (cout / 2), .cat [0], .drop 0]
+
+/-- `MultiDomainConvBlock(cin, c)`: two multi-domain convolutions (instance norm — `affine=False`, it does not check the
+channel count —, activation and dropout keep the channels) -/
+def mdBlockC (keep : Bool) (cin c : Nat) : List COp := mdConvC keep cin c ++ [.save] ++ mdConvC false c c
+
+/-- `MultiDomainUnet2d` below the top level: input remembered in register 0 (it is the pooled skip connection of the level
+above when `keep`); the block's result is remembered (next level's input and skip connection / input of the transposed
+convolution) -/
+def mdLvC (keep : Bool) (cin c : Nat) : Nat → List COp
+  | 0 => mdBlockC keep cin c ++ [.save, .emit]
+  | L + 1 =>
+    mdBlockC keep cin c ++ [.save, .emit] ++ mdLvC true c (2 * c) L ++
+      mdConvC false (2 * c) c ++ [.emit, .cat [0], .drop 0, .save] ++ mdBlockC false (2 * c) c ++ [.save, .emit]
+
+/-- `MultiDomainUnet2d(fwd, bwd, cin, cout, num_filters = F, num_pool_layers = L)`; `__init__` always builds the first
+down-sampling block, so `L = 0` gives the same network as `L = 1` -/
+def mdUnetC (cin cout F L : Nat) : List COp :=
+  [.save] ++ mdBlockC false cin F ++ [.save, .emit] ++ mdLvC true F (2 * F) (L - 1) ++
+    mdConvC false (2 * F) F ++ [.emit, .cat [0], .drop 0, .save] ++ mdBlockC false (2 * F) F ++ [.conv F cout, .emit]
+
 /-- MWCNN `ConvBlock(cin, w)` + `DilatedConvBlock(w)`; the result is remembered (`res_values`) right after the last
 convolution when `sv` -/
 def mwDownC (bn sv : Bool) (cin w : Nat) : List COp :=
